@@ -65,7 +65,9 @@ Consume ==
     /\ LET e == Trace[l]
        IN  /\ CASE e.ev = "open"      -> MmapOpenClosesSecondFd(e.who)
                 [] e.ev = "rlock_ok"  -> hpc[e.who] = "locked" /\ hres[e.who] = "ok" /\ UNCHANGED vars
-                [] e.ev = "rlock_err" -> hpc[e.who] = "idle" /\ hres[e.who] = "err" /\ UNCHANGED vars
+                \* C07: a refused lock means an error and no rows -- and nothing was read without the lock
+                [] e.ev = "rlock_err" -> /\ hpc[e.who] = "idle" /\ hres[e.who] = "err" /\ UNCHANGED vars
+                                         /\ e.rows = 0 /\ e.haserr /\ e.reads = 0
                 [] e.ev = "page"      -> PageRead(e.who)
                 [] e.ev = "cb"        -> CallbackEnter(e.who)
                 [] e.ev = "runlock"   -> RUnlock(e.who)
